@@ -638,8 +638,18 @@ impl Executor for Session {
             }
             Command::Meta(command) => {
                 // META is semantically read-only (§63.2), so it shares the
-                // lock with KQL rather than taking it exclusively.
-                let _guard = self.nexus.lock.read().await;
+                // lock with KQL rather than taking it exclusively. PREVIEW KML
+                // is the exception: its dry run plans a real transaction — it
+                // allocates a sequence number and inserts the pending shells
+                // it later removes — so to every other reader it is a writer.
+                let (_shared, _exclusive) = if matches!(
+                    command,
+                    anda_kip::MetaCommand::Preview(anda_kip::PreviewCommand::Kml(_))
+                ) {
+                    (None, Some(self.nexus.lock.write().await))
+                } else {
+                    (Some(self.nexus.lock.read().await), None)
+                };
                 let authority = match self.authority(&space, &auth).await {
                     Ok(authority) => authority,
                     Err(err) => return Response::from(err),
